@@ -331,9 +331,10 @@ class Model:
                 return None
             it = paths.subst(st.iter, path.env)
             skip = 0
-            if isinstance(it, ast.Subscript) and isinstance(it.slice, ast.Slice) and it.slice.upper is None and it.slice.step is None:
+            while isinstance(it, ast.Subscript) and isinstance(it.slice, ast.Slice) and it.slice.upper is None and it.slice.step is None:
                 lo = it.slice.lower
-                skip = lo.value if isinstance(lo, ast.Constant) else 0 if lo is None else None
+                k = lo.value if isinstance(lo, ast.Constant) and isinstance(lo.value, int) and lo.value >= 0 else 0 if lo is None else None
+                skip = None if (k is None or skip is None) else skip + k
                 it = it.value
             if not (isinstance(it, ast.Call) and isinstance(it.func, ast.Attribute) and norm(it.func.value) == val):
                 return None
@@ -357,7 +358,7 @@ class Model:
         if not loops:
             raise AnalysisError('%s: no per-line loop found' % f.site)
         first = loops[0]
-        if any((l['splitter'], l['skip'], l['linevar']) != (first['splitter'], first['skip'], first['linevar']) for l in loops):
+        if any((l['splitter'], l['linevar']) != (first['splitter'], first['linevar']) for l in loops):
             raise AnalysisError('%s: different per-line loops on different paths' % f.site)
         self._validator = dict(func=f, value=val, splitter=first['splitter'], skip=first['skip'], linevar=first['linevar'], paths=ps, loops=loops)
         return self._validator
@@ -395,8 +396,6 @@ class Model:
         if V['splitter'] != '$.splitlines()':
             # a different primitive changes what a "line" is: C08.R2 reports it; here we cannot build the model
             raise AnalysisError('validator splits the value with %s, not str.splitlines()' % V['splitter'])
-        if V['skip'] != 1:
-            raise AnalysisError('validator does not skip exactly the first line')
         dom = self.domain(dom_extra)
         # per-line acceptance: no raising path of the loop body is taken
         noboundary = self.pat(r'[^\n\r]*').intersect(dom)
@@ -420,37 +419,35 @@ class Model:
         alpha = self.alpha
         nl, cr = alpha.idx['\n'], alpha.idx['\r']
 
-        # automaton: state = (phase, dfa state)  phase 0: in first line, 1: in a later line, 2: after \r (pending)
-        def step(s, sym):
-            if s == 'dead':
-                return s
-            ph, q, after_cr, at_start = s
-            if sym == nl or sym == cr:
-                if sym == nl and after_cr and at_start:
-                    # \r\n is one boundary: stay at the start of the new line
-                    return (ph, q, False, True)
-                # close the current line
-                if ph == 0:
-                    if not first.acc[q]:
+        # automaton: state = (number of lines closed so far (capped), dfa state, after \r, at line start); the first `skip`
+        # lines are not examined, every later line must be acceptable
+        def make_lines_ok(skip):
+            def step(s, sym):
+                if s == 'dead':
+                    return s
+                ph, q, after_cr, at_start = s
+                checked = ph >= skip
+                if sym == nl or sym == cr:
+                    if sym == nl and after_cr and at_start:
+                        # \r\n is one boundary: stay at the start of the new line
+                        return (ph, q, False, True)
+                    # close the current line
+                    if not (ok_line.acc[q] if checked else first.acc[q]):
                         return 'dead'
-                else:
-                    if not ok_line.acc[q]:
-                        return 'dead'
-                return (1, 0, sym == cr, True)
-            if ph == 0:
-                return (0, first.trans[q][sym], False, False)
-            return (1, ok_line.trans[q][sym], False, False)
+                    return (min(ph + 1, skip), 0, sym == cr, True)
+                if not checked:
+                    return (ph, first.trans[q][sym], False, False)
+                return (ph, ok_line.trans[q][sym], False, False)
 
-        def accepting(s):
-            if s == 'dead':
-                return False
-            ph, q, after_cr, at_start = s
-            if ph == 0:
-                return first.acc[q]
-            if at_start:
-                return True      # text ended with a boundary: no further line
-            return ok_line.acc[q]
-        lines_ok = rx.from_function(alpha, [], (0, 0, False, True), step, accepting)
+            def accepting(s):
+                if s == 'dead':
+                    return False
+                ph, q, after_cr, at_start = s
+                if ph > 0 and at_start:
+                    return True      # text ended with a boundary: no further line
+                return ok_line.acc[q] if ph >= skip else first.acc[q]
+            return rx.from_function(alpha, [], (0, 0, False, True), step, accepting)
+        lines_ok_by_skip = {}
         # a value is accepted when it takes a non-raising path: all literals of the path hold and, when the path
         # runs the per-line loop, every continuation line is acceptable
         anyv = rx.sigma_star(alpha)
@@ -462,7 +459,13 @@ class Model:
             for test, pol in p_.conds:
                 pl = strlang.pred_lang(test, V['value'], self.alpha)
                 lang = lang.intersect(pl if pol else pl.complement())
-            if any(e[0] == 'lines' for e in p_.events):
-                lang = lang.intersect(lines_ok)
+            for e in p_.events:
+                if e[0] == 'lines':
+                    k = e[1]['skip']
+                    if k is None:
+                        raise AnalysisError('validator: the number of unchecked leading lines is not a constant')
+                    if k not in lines_ok_by_skip:
+                        lines_ok_by_skip[k] = make_lines_ok(k)
+                    lang = lang.intersect(lines_ok_by_skip[k])
             accepted = accepted.union(lang)
         return dict(V=V, accepted=accepted.intersect(dom), ok_line=ok_line, index_error=index_error)
